@@ -17,6 +17,7 @@ type scRM struct {
 	baseScn
 	closeAt int
 	bumps   int
+	rebuilt int // replica copies rebuilt in place so far
 	holeVb  int // a replica slot that is / was unassigned (-1: none)
 	holeR   int
 }
@@ -190,6 +191,32 @@ func (s *scRM) Actions(w *World) []Action {
 	c := w.cfg
 	acts := w.persistActions()
 	b := w.cl.buckets[c.Bucket]
+	if s.rebuilt < 2 && w.ready1() {
+		// a replica copy that is rebuilt in place (dropped and streamed again from the active): it keeps the
+		// vbUUID - the failover table is taken over from the active - but its persisted seqno starts over
+		for vb := 0; vb < c.NVb; vb++ {
+			for r := 1; r <= c.NReplicas; r++ {
+				vb, r := vb, r
+				v := b.vbs[vb]
+				if b.vbmap[vb][r] < 0 || v.copies[r].Persisted == 0 || v.copies[r].UUID != v.failover[0].UUID {
+					continue
+				}
+				acts = append(acts, Action{ID: fmt.Sprintf("rebuild|vb%d|r%d", vb, r), W: 1, Do: func() {
+					s.rebuilt++
+					w.mu.Lock()
+					v.copies[r].Persisted = uint64(w.tape.Draw(int(v.copies[r].Persisted), nil))
+					cp := v.copies[r]
+					if w.slowCopy == nil {
+						w.slowCopy = map[[2]int]bool{}
+					}
+					w.slowCopy[[2]int{vb, r}] = true
+					w.mu.Unlock()
+					w.fault("replica-rebuilt", fmt.Sprintf("vb%d.r%d", vb, r))
+					w.jl(&journal.Ev{K: journal.KPersist, Vb: vb, I: int64(r), U: cp.UUID, U2: cp.Persisted, S: "rebuild"})
+				}})
+			}
+		}
+	}
 	if (c.W.Failover > 0 || s.holeVb >= 0) && s.bumps < 2 && w.ready1() {
 		acts = append(acts, Action{ID: "mapbump", W: 2, Do: func() {
 			s.bumps++
